@@ -102,7 +102,16 @@ def gen_small(rng, it):
     zones = rng.integers(0, max(1, int(nz * rng.uniform(0.3, 1.0))), (ny, nx))
     zones = np.where(zones == z_nodata, 0, zones)
     zones = np.where(rng.random((ny, nx)) < rng.uniform(0, 0.4), z_nodata, zones).astype(zdt)
-    nodata = {"int16": -9999, "float32": -9999.0, "float64": -9999.0, "int32": -9999, "uint8": 255}[ddt]
+    # placeholders incl. ones that have no exact float32 image (INT32_MAX, -9999.9): the test "pixel == nodata" must be made
+    # on the values as stored, whatever the output dtype; float32 rasters only get placeholders a float32 cell can hold
+    nodata = {
+        "int16": [-9999, -9999, -32768, 32767, 0],
+        "float32": [-9999.0, -9999.0, float(np.float32(-9999.9)), float(np.finfo(np.float32).min), 0.0],
+        "float64": [-9999.0, -9999.0, -9999.9, float(np.finfo(np.float64).min), 1e20],
+        "int32": [-9999, -9999, 2147483647, -2147483647, 0],
+        "uint8": [255, 255, 0],
+    }[ddt]
+    nodata = nodata[int(rng.integers(0, len(nodata)))]
     if ddt == "uint8":
         px = rng.integers(0, 255, (t, ny, nx))
     elif ddt.startswith("int"):
